@@ -1,7 +1,7 @@
 """C17 — meaning is stable under any sequence of presentation-level operations."""
 import random
 
-from harness import common, core, text, vers
+from harness import common, core, dense, text, vers
 
 OPS = ["printparse", "permute", "simplify", "validate", "invert2", "parse_s", "parse_v", "parse_sv"]
 
@@ -176,12 +176,15 @@ def run(ctx):
             nontrivial.add((s.rcls.scheme, t0, tuple(hist)))
         if wi % 61 == 0 and len(samples) < 8:
             samples.append(dict(scheme=s.rcls.scheme, start=str(s.rcls(constraints=s.constraints(pat))), history=hist, end=str(rng)))
+    # ---- short histories on ranges over dense families of versions (case variants, zero padding, empty parts): harness/dense.py
+    dense_ev, dense_per = dense.run(ctx, "C17", r, viol)
+    evals += dense_ev
     if not violations and (diffs or not proofs["ok"]):
         what = ("theorems of Props/C17.v no longer check: " + str(proofs.get("error"))[-400:]) if not proofs["ok"] else \
             ("model and implementation differ: " + str(diffs[0]))
         violations.append(dict(kind="no-failing-input-found", stage="proof" if not proofs["ok"] else "correspondence",
                                theorem_or_stream="Props/C17.v" if not proofs["ok"] else "history walk vs model steps", what=what, diffs=diffs[:10]))
-    cov = dict(evaluations=evals, distinct_nontrivial=len(nontrivial),
+    cov = dict(evaluations=evals, dense_pairs=dense_per, distinct_nontrivial=len(nontrivial),
                rule=f"{nwalks} random walks of up to {maxsteps} operations over the alphabet {OPS} from random well-formed ranges (1..{maxlen} constraints, vacuous ones included, 5% '*') "
                     "of registered schemes; after every step the full membership vector over all probe positions (at/between/around) is compared with the initial one, the constraints with "
                     "the model's state, and the canonical text must be constant after the first simplification; non-trivial = distinct (scheme, range, history with >=3 operations)",
